@@ -3,7 +3,7 @@ CONSTANTS
   MaxReqs = 3
   MaxResp = 3
   ReqHdrNames = {"none", "mixed", "multi"}
-  HdrNames = {"none", "rep", "bin", "multi"}
+  HdrNames = {"none", "rep", "bin", "multi", "shared"}
   ErrNames = {"none", "code", "msg", "full"}
   DataVariants = {"plain", "e1", "eL"}
   Decoys = {"none", "def", "flag", "both"}
